@@ -162,6 +162,11 @@ def tlc(module, cfg=None, env=None, workers=8, simulate=None, depth=None, timeou
     e["JAVA_TOOL_OPTIONS"] = jopts
     if env:
         e.update({k: str(v) for k, v in env.items()})
+    # reading the imported data (ndJsonDeserialize of the files named in `env`) happens before the initial states:
+    # give the start-up watchdog 10 s per MB on top
+    if env:
+        nbytes = sum(os.path.getsize(str(v)) for v in env.values() if isinstance(v, str) and os.path.isfile(str(v)))
+        startup_timeout += nbytes // 100000
     r = TlcResult()
     r.cmd = " ".join(cmd)
     t0 = time.time()
